@@ -343,7 +343,7 @@ func (r *ruler) boundsRule() {
 // operand"), and an error that disappears is covered by V10.
 var errorExits = map[string][]string{
 	"CALL": {"global value.ErrType", "global vm.ErrArity"}, "ATON": {"global value.ErrType", "global vm.ErrConversion"},
-	"MOV": {"global value.ErrNil"}, "JMPF": {"global value.ErrType"}, "JMPT": {"global value.ErrType"},
+	"MOV": {"global value.ErrNil"}, "JMPF": {"global value.ErrType", "global value.ErrNil"}, "JMPT": {"global value.ErrType", "global value.ErrNil"},
 	"READ": {"fmt.Errorf(\"read error"},
 }
 
